@@ -32,6 +32,8 @@ func calleeName(call *ssa.CallCommon) string {
 		return v.Name()
 	case *ssa.UnOp:
 		switch a := v.X.(type) {
+		case *ssa.FreeVar:
+			return a.Name()
 		case *ssa.Alloc:
 			return a.Comment
 		case *ssa.FieldAddr:
@@ -59,6 +61,12 @@ func (x *Exec) doCall(st *State, fr *Frame, in ssa.Instruction, call *ssa.CallCo
 		return
 	}
 	x.callSiteObligations(st, fr, in, call, args)
+	if fr.parent == nil || true {
+		if st.calls == nil {
+			st.calls = map[string]int{}
+		}
+		st.calls[calleeName(call)]++
+	}
 	if call.IsInvoke() {
 		recv := x.get(fr, call.Value)
 		x.invoke(st, fr, in, call, recv, args, k)
@@ -287,7 +295,7 @@ func (x *Exec) callback(st *State, fr *Frame, fv Val, args []Val, call *ssa.Call
 	}
 	pv := x.mkFresh(types.NewInterfaceType(nil, nil), "panicval").(Iface)
 	x.assume("(not (= " + pv.Tag + " 0))")
-	x.propagatePanic(st2, fr, Outcome{Panic: true, PanicVal: pv}, k)
+	k(st2, Outcome{Panic: true, PanicVal: pv})
 	x.sess.Pop()
 }
 
@@ -317,6 +325,23 @@ func (x *Exec) invoke(st *State, fr *Frame, in ssa.Instruction, call *ssa.CallCo
 		}
 	}
 	sig := call.Signature()
+	if x.fc != nil && strings.Contains(x.fc.Opts["invoke."+name], "maypanic") {
+		// a user-supplied implementation: may return anything or panic with any value
+		x.note("interface method " + name + ": user callback, results unconstrained, may panic with any value, heap havocked")
+		st2 := st.clone()
+		x.paths++
+		x.sess.Push()
+		x.havocHeap(st, "invoke "+name)
+		k(st, Outcome{Vals: x.freshResults(sig.Results(), name)})
+		x.sess.Pop()
+		x.sess.Push()
+		x.havocHeap(st2, "invoke "+name+" (panicking)")
+		pv := x.mkFresh(types.NewInterfaceType(nil, nil), "panicval").(Iface)
+		x.assume("(not (= " + pv.Tag + " 0))")
+		k(st2, Outcome{Panic: true, PanicVal: pv})
+		x.sess.Pop()
+		return
+	}
 	if x.eng.pureMethod(call.Method) {
 		// deterministic function of receiver (and heap): uninterpreted
 		res := sig.Results()
@@ -403,7 +428,24 @@ func (x *Exec) applyContractSig(st *State, fr *Frame, fc *FuncContract, sig *typ
 	}
 	// effects
 	frameOK := fc.Pure || (fc.HasAssign && len(fc.Assigns) == 1 && fc.Assigns[0] == "nothing")
-	if !frameOK {
+	classOnly := fc.HasAssign
+	var clsPats []string
+	for _, a := range fc.Assigns {
+		switch {
+		case a == "nothing" || a == "fresh":
+		case strings.HasPrefix(a, "class:"):
+			clsPats = append(clsPats, "~"+strings.TrimPrefix(a, "class:"))
+		default:
+			classOnly = false
+		}
+	}
+	if !frameOK && classOnly {
+		x.havocClasses(st, clsPats)
+		// objects allocated by the callee lie above the current watermark
+		nw := smtSym(x.fresh("allocW", "Int"))
+		x.assume("(>= " + nw + " (+ " + st.allocW + " " + strconv.Itoa(st.nAlloc) + "))")
+		st.allocW, st.nAlloc = nw, 0
+	} else if !frameOK {
 		x.havocHeap(st, "call "+fc.Key)
 		for _, a := range args {
 			if p, ok := a.(Ptr); ok && p.Cell != nil {
@@ -477,7 +519,7 @@ func (x *Exec) applyContractSig(st *State, fr *Frame, fc *FuncContract, sig *typ
 				x.assume(goal)
 			}
 		}
-		x.propagatePanic(st2, fr, Outcome{Panic: true, PanicVal: pv}, k)
+		k(st2, Outcome{Panic: true, PanicVal: pv})
 		x.sess.Pop()
 		return
 	}
@@ -745,6 +787,16 @@ func (x *Exec) modelExternal(st *State, fr *Frame, fn *ssa.Function, full string
 	case "(*sync.Mutex).Lock", "(*sync.Mutex).Unlock", "(*sync.RWMutex).Lock", "(*sync.RWMutex).Unlock", "(*sync.RWMutex).RLock", "(*sync.RWMutex).RUnlock":
 		x.lockOp(st, fr, in, full, args)
 		return ret()
+	case "math.IsNaN":
+		if f, ok := args[0].(Flt); ok {
+			return ret(Bool{"(fp.isNaN " + f.T + ")"})
+		}
+	case "math.IsInf":
+		if f, ok := args[0].(Flt); ok {
+			if s, ok2 := args[1].(Int); ok2 {
+				return ret(Bool{"(and (fp.isInfinite " + f.T + ") (or (= " + s.T + " 0) (and (> " + s.T + " 0) (fp.isPositive " + f.T + ")) (and (< " + s.T + " 0) (fp.isNegative " + f.T + "))))"})
+			}
+		}
 	case "context.Background":
 		return ret(Iface{strconv.Itoa(x.eng.typeIDByName("context.backgroundCtx")), "1"})
 	}
